@@ -2265,7 +2265,47 @@ func (w *c05World) targeted() []func() {
 		w.cachedScenario,
 		w.addressScenario,
 		w.loginAttachedScenario,
+		w.pushAcrossSessionsScenario,
 	}
+}
+
+// An approval is given for ONE push transaction: a second session of the same user (a later login, another
+// vip_push_cookie) that asks for a push while the first transaction is still within its lifetime - approved and
+// polled, approved and not yet polled, or pending - gets a transaction of its own, and polling it before the
+// owner approved THAT one raises nothing.
+func (w *c05World) pushAcrossSessionsScenario() {
+	second := func() int {
+		w.tick(5)
+		w.login(1, true)
+		return len(w.cookies) - 1
+	}
+	// approved and consumed by the first session's poll
+	w.pushStart([]int{0}, 0)
+	w.approve(w.vcTx[0])
+	w.poll([]int{0}, 0)
+	n := second()
+	w.pushStart([]int{n}, 1)
+	w.poll([]int{n}, 1)
+	w.poll([]int{n}, 0) // the first transaction's cookie value in the second session
+	w.approve(w.vcTx[1])
+	w.poll([]int{n}, 1)
+	// approved, not yet polled by the session that asked
+	w.tick(121)
+	w.pushStart([]int{0}, 0)
+	w.approve(w.vcTx[0])
+	n = second()
+	w.pushStart([]int{n}, 1)
+	w.poll([]int{n}, 1)
+	w.poll([]int{0}, 0)
+	// pending, and the other user's session in between
+	w.tick(121)
+	w.pushStart([]int{0}, 0)
+	n = second()
+	w.pushStart([]int{1}, 1) // bob
+	w.poll([]int{n}, 1)
+	w.approve(w.vcTx[0])
+	w.poll([]int{n}, 1)
+	w.poll([]int{1}, 1)
 }
 
 // A login request may carry auth_cookie values: the product (whose cookie: own / another user's / junk) x (valid /
@@ -2461,7 +2501,7 @@ const c05OktaTargeted = 16
 
 func TestVerif_C05(t *testing.T) {
 	verifWriteConsts(t)
-	res := newVerifResult("exhaustive depth-3 histories over 13 core letters and depth-2 over all 34 letters of the alphabet (two of them password logins that carry the newest session cookie, valid or expired), depth 3 over the 8 letters of the Okta alphabet under the Okta configuration (thorough: depth 3 over 20 letters, depth 4 over the first eight and over the Okta letters); requests optionally authenticated by a verified client certificate, with failing profile writes, or served from the cache database, and coming from eight client addresses (RemoteAddr: hosts, ports, IPv6; X-Forwarded-For / X-Real-IP / Forwarded; a local proxy — one random request in four, three letters, one scenario), after the prefix [login user 1; login user 2] + seeded random histories of length <= 12 (thorough <= 20) over all operations + 20 targeted scenarios (one of them the product of password logins with attached auth_cookie values: own / another user's / junk x valid / expired x levels, singly and in pairs), under 32 configurations (two plain, a family of user-name pairs in which one name matches the other as a pattern x row orders, two with the Okta authenticator); cookies attached singly and in pairs in both orders; non-trivial = the history contains at least one level upgrade; distinct by (operations, outputs, addresses)")
+	res := newVerifResult("exhaustive depth-3 histories over 13 core letters and depth-2 over all 34 letters of the alphabet (two of them password logins that carry the newest session cookie, valid or expired), depth 3 over the 8 letters of the Okta alphabet under the Okta configuration (thorough: depth 3 over 20 letters, depth 4 over the first eight and over the Okta letters); requests optionally authenticated by a verified client certificate, with failing profile writes, or served from the cache database, and coming from eight client addresses (RemoteAddr: hosts, ports, IPv6; X-Forwarded-For / X-Real-IP / Forwarded; a local proxy — one random request in four, three letters, one scenario), after the prefix [login user 1; login user 2] + seeded random histories of length <= 12 (thorough <= 20) over all operations + 21 targeted scenarios (one of them a second session of the same user asking for a push within the lifetime of an approved / pending transaction of the first, one of them the product of password logins with attached auth_cookie values: own / another user's / junk x valid / expired x levels, singly and in pairs), under 32 configurations (two plain, a family of user-name pairs in which one name matches the other as a pattern x row orders, two with the Okta authenticator); cookies attached singly and in pairs in both orders; non-trivial = the history contains at least one level upgrade; distinct by (operations, outputs, addresses)")
 	vip := &c05Vip{}
 	vip.reset()
 	// lib/vip builds a new http.Transport for every call and never closes its idle connection: without
